@@ -535,6 +535,9 @@ theorem sync_ext_after_ttl (s : Sys) (jo : JobObj) (rj1 : Job) (h1 : (syncTasksS
 
 /-- every call of `SyncOne` comes from `sync` on the cached Job, or is one of the two final Job
 writes (`Update`, `UpdateStatus`) -/
+theorem statusBase_name (s : Sys) (jo : JobObj) (b : Bool) : (statusBase s jo b).name = jo.name := by
+  unfold statusBase; cases b <;> rfl
+
 theorem syncOne_origin (s : Sys) :
     (∃ l, Ext s (syncOne s).1 l) ∧
     ∀ c ∈ newCalls s (syncOne s).1, ∃ jo, s.jobCache = some jo ∧
@@ -581,15 +584,19 @@ theorem syncOne_origin (s : Sys) :
     | true =>
       simp only [Bool.not_true, Bool.false_eq_true, if_false]
       have hw2 : ∃ l3, Ext s2 (if (decide (newJob.status ≠ jo.job.status) || nullTime) = true then
-            apiUpdateJobStatus s2 jo { jo with job := newJob } else (s2, true)).1 l3 ∧
+            apiUpdateJobStatus s2 (statusBase s2 jo (newJob.admissionError ≠ jo.job.admissionError || newFin ≠ jo.finalizer))
+              { jo with job := newJob } else (s2, true)).1 l3 ∧
           ∀ c ∈ l3, c.verb = "update" ∧ c.res = "jobs" ∧ c.name = jo.name := by
         split
-        · obtain ⟨c, e, hv, hr, hn, _⟩ := apiUpdateJobStatus_ext s2 jo { jo with job := newJob }
-          exact ⟨[c], e, fun c' hc' => by rw [List.mem_singleton.mp hc']; exact ⟨hv, hr, hn⟩⟩
+        · obtain ⟨c, e, hv, hr, hn, _⟩ := apiUpdateJobStatus_ext s2
+            (statusBase s2 jo (newJob.admissionError ≠ jo.job.admissionError || newFin ≠ jo.finalizer))
+            { jo with job := newJob }
+          exact ⟨[c], e, fun c' hc' => by rw [List.mem_singleton.mp hc']; exact ⟨hv, hr, hn.trans (statusBase_name _ _ _)⟩⟩
         · exact ⟨[], Ext.refl s2, by simp⟩
       obtain ⟨l3, e3, hu3⟩ := hw2
       generalize (if (decide (newJob.status ≠ jo.job.status) || nullTime) = true then
-            apiUpdateJobStatus s2 jo { jo with job := newJob } else (s2, true)) = w2 at *
+            apiUpdateJobStatus s2 (statusBase s2 jo (newJob.admissionError ≠ jo.job.admissionError || newFin ≠ jo.finalizer))
+              { jo with job := newJob } else (s2, true)) = w2 at *
       obtain ⟨s3, ok2⟩ := w2
       simp only at e3 ⊢
       have e03 := e02.trans e3
